@@ -66,6 +66,7 @@ fixed("C16","c0b2581","pin:if_continue_in_switch","'switch (a) { case 1: if (a) 
 fixed("C16","1052080","pin:banked_call_without_rom_select","a call into another bank under 3E without a declared ROM_SELECT unwrapped None in get_variable()")
 fixed("C13","acc7223","C13:store_to_array_name","'tab = 5;' / 'tab++;' on an array name emitted STA #<tab / INC #<tab")
 fixed("C13","2fde23b","pin:goto_undefined_label","'goto nowhere;' was accepted and emitted JMP .nowhere with no such label")
+fixed("C13","9447560","pin:goto_label_named_in_asm_text_only","follow-up of 2fde23b: a goto target whose name merely occurred inside the text of an asm() statement (operand, comment, substring) counted as defined")
 fixed("C13","ef0c9a9","pin:continue_in_switch_in_dowhile","'do { switch (a) { case 1: continue; } } while (c);' jumped to .dowhileconditionN, a label that was never emitted")
 
 fixed("C01","5a7a314","pin:else_after_short_circuit","the else branch of 'if (a && b)' inherited the flag knowledge of the last test although && / || jump to it from several tests")
